@@ -95,6 +95,7 @@ PROPS = {
     },
     "C07": {
         "theories": ["parameter views: VIEW_AT(tree, instant) opaque; representation invariant MemoOK (every memoised view of a system is the view of its current tree)"],
+        "native_standins": "contracts.c07_views:NATIVE_STANDINS",
         "lemmas": [],
         "validations": [],
         "assumptions": [
@@ -102,7 +103,7 @@ PROPS = {
             "functools.lru_cache (if used) is a process-wide memo keyed by the argument tuple",
             "what a view contains is C06's business (ParameterNodeAtInstant.__init__, Parameter._get_at_instant)",
         ],
-        "not_decided": ["vector indexing by enum members or non-string keys, vector indexing whose result is a group, the as-of-date vectorial variant"],
+        "not_decided": ["vector indexing by non-string, non-enum keys, vector indexing whose result is a group; the as-of-date vectorial variant only through a bounded stand-in on the real code"],
     },
     "C10": {
         "theories": ["groups: N persons, count groups, eid: [0,N) -> [0,count) (all symbolic); aggregates are reduction nodes compared pointwise on (group id, weight) per person"],
